@@ -9,9 +9,12 @@ import (
 	"verifharness/gen"
 	"verifharness/ref"
 	"verifharness/tapecheck"
+	"verifharness/walk"
 )
 
 func init() { register("C13", runC13, replayC13) }
+
+var c13Snap *simdjson.ParsedJson
 
 type histState struct {
 	n   int
@@ -103,6 +106,21 @@ func (w *W) c13History(st *histState, g string, doc []byte, hseed int64, nops in
 			return
 		}
 	}
+	// snapshot into a destination recycled across histories: the edited document, strings grown by Set* included
+	var cerr error
+	perr := walk.Guard(func() error {
+		c13Snap = pj.Clone(c13Snap)
+		got, e := walk.Into(c13Snap)
+		if d := cmpRoots(roots, got, e, false); d != "" {
+			cerr = fmt.Errorf("%s", d)
+		}
+		return nil
+	})
+	w.Eval(1)
+	if perr != nil || cerr != nil {
+		w.Violation("C13/clone-of-edited-into-recycled-destination", fmt.Sprintf("Clone(dst) of the edited document: %v %v; doc=%s history=%v", perr, cerr, q(doc), lastN(trace, 6)), cs)
+		c13Snap = nil
+	}
 	if effective >= 1 {
 		w.Nontrivial(gen.Hash64(doc, []byte(fmt.Sprint(hseed, nops))))
 	}
@@ -145,7 +163,7 @@ func (w *W) editDocs(nHist int, fn func(g string, doc []byte, k int)) {
 
 func runC13(w *W) {
 	st := &histState{}
-	n := 6000
+	n := 20000
 	ops := 12
 	if w.thorough() {
 		n = 400000
